@@ -44,6 +44,29 @@ def fd2(f, x, h, side):
     return float((f(np.array(x)) - 2 * f(np.array(x - h)) + f(np.array(x - 2 * h))) / h**2)
 
 
+HS = (1e-1, 1e-2, 1e-3, 1e-4, 1e-5)
+
+
+def jump1(f, x, towards_inside):
+    """Relative jump of the first derivative at x: the smallest over several steps (a real
+    discontinuity shows at every step; a step too coarse for a steep extrapolation, or so
+    fine that the rounding of s dominates, shows only at that step)."""
+    best = np.inf
+    for h in HS:
+        gi, go = fd1(f, x, h, towards_inside), fd1(f, x, h, -towards_inside)
+        best = min(best, abs(gi - go) / (abs(gi) + 1e-300))
+    return best
+
+
+def jump2(f, x, towards_inside, xmid):
+    best = np.inf
+    for h in HS:
+        ci, co = fd2(f, x, h, towards_inside), fd2(f, x, h, -towards_inside)
+        cmid = abs(fd2(f, xmid, h, +1))
+        best = min(best, abs(ci - co) / (abs(ci) + cmid + 1e-300))
+    return best
+
+
 def main():
     d, job = load_job()
     a = job["args"]
@@ -134,19 +157,14 @@ def main():
         # curvature continuous at i=0 / i=N as the docstrings promise
         lower_plain = which in ("monotonic", "sqrt:wall.X", "sqrt:wall.wall") or (which == "sqrt:upper-only")
         upper_plain = which in ("monotonic", "sqrt:X.wall", "sqrt:wall.wall") or (which == "sqrt:lower-only")
-        cmid = abs(fd2(f, N / 2, h, +1))
         if lower_plain:
-            gi, go = fd1(f, 0.0, h, +1), fd1(f, 0.0, h, -1)
-            acc.add("extrapolation below 0: gradient continuous", which, abs(gi - go) / abs(gi), 0.1, where=params)
+            acc.add("extrapolation below 0: gradient continuous", which, jump1(f, 0.0, +1), 0.1, where=params)
             if which != "monotonic":
-                ci, co = fd2(f, 0.0, h, +1), fd2(f, 0.0, h, -1)
-                acc.add("extrapolation below 0: curvature continuous", which, abs(ci - co) / (abs(ci) + cmid + 1e-300), 0.2, where=params, sig="curvature jump at i=0")
+                acc.add("extrapolation below 0: curvature continuous", which, jump2(f, 0.0, +1, N / 2), 0.2, where=params, sig="curvature jump at i=0")
         if upper_plain:
-            gi, go = fd1(f, N, h, -1), fd1(f, N, h, +1)
-            acc.add("extrapolation above N: gradient continuous", which, abs(gi - go) / abs(gi), 0.1, where=params)
+            acc.add("extrapolation above N: gradient continuous", which, jump1(f, N, -1), 0.1, where=params)
             if which != "monotonic":
-                ci, co = fd2(f, N, h, -1), fd2(f, N, h, +1)
-                acc.add("extrapolation above N: curvature continuous", which, abs(ci - co) / (abs(ci) + cmid + 1e-300), 0.2, where=params, sig="curvature jump at i=N (general-branch upper_extrap)" if which in ("sqrt:wall.wall", "sqrt:X.wall") else "curvature jump at i=N")
+                acc.add("extrapolation above N: curvature continuous", which, jump2(f, N, -1, N / 2), 0.2, where=params, sig="curvature jump at i=N (general-branch upper_extrap)" if which in ("sqrt:wall.wall", "sqrt:X.wall") else "curvature jump at i=N")
     # ---- the guarded entry point: strictly increasing on the used index range, or an exception ----
     for t in range(max(30, ntr // 10)):
         guards = int(rng.integers(0, 4))
